@@ -191,6 +191,8 @@ pub struct TlsWorld {
     pub sent_app: bool,
     pub eager_close: bool,
     pub closed_eagerly: bool,
+    /// the handshake response the client sent inside TLS (payload)
+    pub inner_handshake: Vec<u8>,
     server_rec_buf: Vec<u8>,
     /// the server's close_notify has arrived: nothing behind it counts
     pub server_closed_tls: bool,
@@ -238,6 +240,7 @@ impl TlsWorld {
             sent_app: false,
             eager_close: false,
             closed_eagerly: false,
+            inner_handshake: vec![],
             server_rec_buf: vec![],
             server_closed_tls: false,
             bytes_ignored_after_server_close_notify: 0,
